@@ -90,12 +90,20 @@ SharedIffLinked(s, d) ==
     \A a \in DecNames(d) : \A b \in DecNames(d) :
         (InoOf(s, a[1], a[2].p) # 0 /\ InoOf(s, b[1], b[2].p) # 0)
         => ((a[2].x = b[2].x) <=> (InoOf(s, a[1], a[2].p) = InoOf(s, b[1], b[2].p)))
+\* C06: after force_consistency, the location and length get_record reports for every entry with
+\* sectors of its own are the ones found in the image written next (d.fq: the queries; none = not asked)
+QuerySet(d) == {<<q.ns, q.p, q.x, q.n>> : q \in {y \in Range(d.fq) : y.ns \in {"iso", "jol", "error"} /\ y.n > 0}}
+ImageSet(d) == {<<"iso", e.p, e.x, e.n>> : e \in {y \in Range(d.iso) : y.n > 0}}
+               \cup {<<"jol", e.p, e.x, e.n>> : e \in {y \in Range(d.jol) : y.n > 0}}
+QueryAgreesWithImage(d) ==
+    (\E q \in Range(d.fq) : q.ns # "none") => (QuerySet(d) = ImageSet(d) /\ \A q \in Range(d.fq) : q.ns # "error")
 DecMismatch(s, d) ==
        (IF DecShape(s.iso) # DecSeen(d.iso) THEN {"Dec_Tree_iso"} ELSE {})
   \cup (IF s.cfg.joliet # 0 /\ DecShape(s.jol) # DecSeen(d.jol) THEN {"Dec_Tree_jol"} ELSE {})
   \cup (IF ModelBlobs(s, s.iso) # DecBlobs(d.iso) THEN {"Dec_Content_iso"} ELSE {})
   \cup (IF s.cfg.joliet # 0 /\ ModelBlobs(s, s.jol) # DecBlobs(d.jol) THEN {"Dec_Content_jol"} ELSE {})
   \cup (IF ~SharedIffLinked(s, d) THEN {"SharedIffLinked"} ELSE {})
+  \cup (IF ~QueryAgreesWithImage(d) THEN {"QueryAgreesWithImage"} ELSE {})
 
 \* names of the clauses in which projection o differs from model state s
 \* (\E over singleton sets binds evaluated values once; LET bodies are re-evaluated per use)
@@ -146,8 +154,9 @@ MasterStep(e) ==
 ApiStep(e) ==
     \E r \in {Step(st, e.a)} :
     CASE r.out = "unsupported" ->
-           /\ PrintT(<<"SKIP", ToJson([tid |-> Traces[tid].id, step |-> l, act |-> e.a.a])>>)
-           /\ st' = st
+           \* outside the model: the rest of this trace is not judged
+           /\ PrintT(<<"SKIP", ToJson([tid |-> Traces[tid].id, step |-> l, act |-> e.a.a, why |-> r.why])>>)
+           /\ st' = [st EXCEPT !.phase = "skipped"]
       [] e.res \notin Documented \cup {"ok"} ->
            \* an exception type the library does not document escaped
            /\ Emit("undocumented", e, {"UndocumentedException"}, r.why)
@@ -166,6 +175,13 @@ ApiStep(e) ==
       [] r.out = "either" /\ e.res = "ok"  -> Judge(e, "accept", r.acc, r.why)
       [] r.out = "either" /\ e.res # "ok"  -> Judge(e, "refused", st, r.why)
 
+\* C17: what modify_file_in_place may touch in the backing file (e.ipk: kinds of changed bytes)
+InPlaceAllowed == {"data", "dirrec", "udf_fe", "vd_size"}
+InPlaceOK(e) ==
+    IF e.res = "ok"
+    THEN IF Range(e.ipk) \subseteq InPlaceAllowed THEN TRUE ELSE Emit("inplace", e, {"InPlaceTouchesOnly"}, "")
+    ELSE IF Range(e.ipk) = {} THEN TRUE ELSE Emit("inplace", e, {"RefusedInPlaceChangedFile"}, "")
+
 TInit == /\ TLCSet(1, JsonDeserialize(IOEnv.TRACE_FILE))
          /\ tid \in 1..Len(Traces)
          /\ l = 1
@@ -178,7 +194,9 @@ TNext == /\ status = "run"
                  /\ status' = "done"
                  /\ UNCHANGED <<tid, l, st>>
             ELSE LET e == Traces[tid].ev[l] IN
-                 /\ IF e.a.a = "Master" THEN MasterStep(e) ELSE ApiStep(e)
+                 /\ IF st.phase = "skipped" THEN st' = st
+                    ELSE IF e.a.a \in {"Master", "BackingView"} THEN MasterStep(e) ELSE ApiStep(e)
+                 /\ (e.a.a = "ModifyInPlace" /\ st.phase # "skipped" /\ st'.phase # "skipped" => InPlaceOK(e))
                  /\ l' = l + 1
                  /\ UNCHANGED <<tid, status>>
 
